@@ -9,7 +9,7 @@ use serde_json::{json, Value};
 use std::collections::{BTreeMap, BTreeSet};
 
 pub fn rule_text() -> String {
-    "Cases are rendered from the choice tape. ENTRY cases (2/3): a program = progen statements (full profile: declarations, control flow, closures, classes, generators, destructuring, exceptions, library calls) interleaved with C19 constructs: plain scripts, scripts with orders, modules; `export const/let(+exported mutator)/function/function*/arrow/async function that orders/class`, `export default` (expression, anonymous/named function, class, arrow, object), `export { a as b }` (in place or at the end), `export const {..} = ..`, re-exports `{ x as y } / same name / { default as z } / * / * as ns` from a host-provided dependency, the nested dependency or the internal library; imports (named, renamed, default, namespace, side-effect only, same module twice) from 0-2 host-provided modules (one nested: /lib/dep1.ts imports ../dep0.ts) with reads of live bindings around calls of imported mutators, in 1/4 of the modules also from the internal source library int:lib (then only the Rust entry points run); `order()`/`__cancelOrder__` from tsrun:host at top level, in try/catch, inside async callees (awaited at once or later) and exported functions, host promises awaited later, Promise.all over host promises, background callees parked on a host promise, `[payloads].map(order)` (orders that stay pending: multi-entry pending lists, also at the end of the program or travelling with a promise suspension); top-level await of the program's own promises, background callees parked on them (resolved at once / at the end / never); host answers by payload key: number, string, object, error, host promise settled at a later empty suspension; errors thrown at top level, inside callees (caught and uncaught), error responses uncaught. The same source goes through 5 entry points, each on a fresh interpreter/context, driven by ONE host script: prepare()+step() [reference], eval() continued by step(), prepare()+step() with host reads at tape-chosen steps (gc_stats, call_depth, collect, get_export_names/get_export, api::get_property/keys on kept order payloads), C API tsrun_prepare+tsrun_run, C API tsrun_prepare+tsrun_step (tsrun_provide_module, tsrun_fulfill_orders, tsrun_create_order_promise/tsrun_resolve_promise, tsrun_get_export(_names), tsrun_set_console, tsrun_gc_stats). Oracle: equal sequence of non-Continue results incl. import requests (specifier, resolved path, importer), order ids+payloads and cancelled ids, and the result of one more step after the end; equal completion value / error text; equal console lines; equal export table (names -> values). ROLE cases (1/3): one module (always `export let count` + `incr`; exports of every form incl. async functions that order, classes, default, re-exports; imports from tsrun:host, the internal source library int:lib and - two-role variant - a host-provided dependency; optional failure at load; no top-level order await) is run as entry module (then imported by a second run on the same interpreter), as host-provided dependency and as InternalModule::source; oracle: the importer's report {names, typeof, values before/after calling every exported mutator/function/class/async orderer through the namespace object and through named/default import bindings, call results}, console lines and order traffic are identical in all roles, the same failure when the module throws at load, and get_export_names()/get_export() of the entry module equal the importer's view. Non-trivial: module with >= 1 export and an import round (or internal import) or an order suspension; or script with an order suspension. Distinct = distinct case text. No open C19 finding exists, so no gate removes a construct (the generator would consult ctx.gates under the prefix C19: and count exclusions)."
+    "Cases are rendered from the choice tape. ENTRY cases (2/3): a program = progen statements (full profile: declarations, control flow, closures, classes, generators, destructuring, exceptions, library calls) interleaved with C19 constructs: plain scripts, scripts with orders, modules; `export const/let(+exported mutator)/function/function*/arrow/async function that orders/class`, `export default` (expression, anonymous/named function, class, arrow, object), `export { a as b }` (in place or at the end), `export const {..} = ..`, re-exports `{ x as y } / same name / { default as z } / * / * as ns` from a host-provided dependency, the nested dependency or the internal library - in 3/7 of the programs that use the internal library it is reached ONLY by such a run-time re-export placed after earlier export statements (first load while exports are pending); imports (named, renamed, default, namespace, side-effect only, same module twice) from 0-2 host-provided modules (one nested: /lib/dep1.ts imports ../dep0.ts) with reads of live bindings around calls of imported mutators, in 1/4 of the modules also from the internal source library int:lib (then only the Rust entry points run); `order()`/`__cancelOrder__` from tsrun:host at top level, in try/catch, inside async callees (awaited at once or later) and exported functions, host promises awaited later, Promise.all over host promises, background callees parked on a host promise, `[payloads].map(order)` (orders that stay pending: multi-entry pending lists, also at the end of the program or travelling with a promise suspension); top-level await of the program's own promises, background callees parked on them (resolved at once / at the end / never); host answers by payload key: number, string, object, error, host promise settled at a later empty suspension; errors thrown at top level, inside callees (caught and uncaught), error responses uncaught. The same source goes through 5 entry points, each on a fresh interpreter/context, driven by ONE host script: prepare()+step() [reference], eval() continued by step(), prepare()+step() with host reads at tape-chosen steps (gc_stats, call_depth, collect, get_export_names/get_export, api::get_property/keys on kept order payloads), C API tsrun_prepare+tsrun_run, C API tsrun_prepare+tsrun_step (tsrun_provide_module, tsrun_fulfill_orders, tsrun_create_order_promise/tsrun_resolve_promise, tsrun_get_export(_names), tsrun_set_console, tsrun_gc_stats). Oracle: equal sequence of non-Continue results incl. import requests (specifier, resolved path, importer), order ids+payloads and cancelled ids, and the result of one more step after the end; equal completion value / error text; equal console lines; equal export table (names -> values); closed form: after a completed run every name the generator exported is in the export table. ROLE cases (1/3): one module (always `export let count` + `incr`; exports of every form incl. async functions that order, classes, default, re-exports; imports from tsrun:host, the internal source library int:lib and - two-role variant - a host-provided dependency; optional failure at load; no top-level order await) is run as entry module (then imported by a second run on the same interpreter), as host-provided dependency and as InternalModule::source; oracle: the importer's report {names, typeof, values before/after calling every exported mutator/function/class/async orderer through the namespace object and through named/default import bindings, call results}, console lines and order traffic are identical in all roles, the same failure when the module throws at load, and get_export_names()/get_export() of the entry module equal the importer's view; closed form: every name the generator exported is in the namespace seen by the importer and in get_export_names(). Non-trivial: module with >= 1 export and an import round (or internal import) or an order suspension; or script with an order suspension. Distinct = distinct case text. No open C19 finding exists, so no gate removes a construct (the generator would consult ctx.gates under the prefix C19: and count exclusions)."
         .into()
 }
 
@@ -88,6 +88,9 @@ struct MB<'t, 'a, 'g> {
     dep_specs: Vec<String>,
     uses_orders: bool,
     uses_cancel: bool,
+    /// the internal library is still to be re-exported lazily (no import of it anywhere in this program)
+    lazy_lib: bool,
+    uses_int_lib: bool,
     ended: bool,
     ask_fns: Vec<String>,
     mutators: Vec<String>,
@@ -138,7 +141,16 @@ impl<'t, 'a, 'g> MB<'t, 'a, 'g> {
         if !self.o.module {
             return;
         }
-        if self.o.internal_lib && self.g.tape.chance(3, 4) {
+        // how the internal source library is reached: not at all / hoisted import (+ re-export) / ONLY by a
+        // run-time re-export that executes after earlier export statements (first load of the library happens
+        // while the importing module already has pending exports)
+        let lib_mode = if self.o.internal_lib { self.g.tape.weighted(&[1, 3, 3]) } else { 0 };
+        if lib_mode == 2 {
+            self.lazy_lib = true;
+            self.uses_int_lib = true;
+        }
+        if lib_mode == 1 {
+            self.uses_int_lib = true;
             self.tag("import:internal-source-lib");
             match self.g.tape.below(3) {
                 0 => self.imports.push("import { libA, libN, libInc } from \"int:lib\";".into()),
@@ -287,6 +299,42 @@ impl<'t, 'a, 'g> MB<'t, 'a, 'g> {
         }
     }
 
+    /// `export .. from "int:lib"` as the only mention of the library, placed after earlier exports
+    fn emit_lazy_lib(&mut self) {
+        self.lazy_lib = false;
+        self.tag("reexport:lazy-internal-after-exports");
+        match self.g.tape.below(4) {
+            0 => {
+                self.tag("reexport:lazy-internal:named");
+                let n = self.fresh("rel");
+                self.lines.push(format!("export {{ libA as {}, libN as {}n, libInc as {}inc }} from \"int:lib\";", n, n, n));
+                self.exports.push(ExportInfo { name: n.clone(), kind: ExKind::ReExport });
+                self.exports.push(ExportInfo { name: format!("{}n", n), kind: ExKind::ReExport });
+                self.exports.push(ExportInfo { name: format!("{}inc", n), kind: ExKind::Mutator(format!("{}n", n)) });
+            }
+            1 => {
+                self.tag("reexport:lazy-internal:star");
+                self.lines.push("export * from \"int:lib\";".into());
+                self.exports.push(ExportInfo { name: "libA".into(), kind: ExKind::ReExport });
+                self.exports.push(ExportInfo { name: "libN".into(), kind: ExKind::ReExport });
+                self.exports.push(ExportInfo { name: "libInc".into(), kind: ExKind::Mutator("libN".into()) });
+                self.exports.push(ExportInfo { name: "libObj".into(), kind: ExKind::ReExport });
+            }
+            2 => {
+                self.tag("reexport:lazy-internal:star-as");
+                let n = self.fresh("nsl");
+                self.lines.push(format!("export * as {} from \"int:lib\";", n));
+                self.exports.push(ExportInfo { name: n, kind: ExKind::ReExport });
+            }
+            _ => {
+                self.tag("reexport:lazy-internal:default-as");
+                let n = self.fresh("rld");
+                self.lines.push(format!("export {{ default as {} }} from \"int:lib\";", n));
+                self.exports.push(ExportInfo { name: n, kind: ExKind::ReExport });
+            }
+        }
+    }
+
     // ---------------------------------------------------------------- C19 statements
     fn c19_stmt(&mut self) {
         if self.ended {
@@ -296,7 +344,7 @@ impl<'t, 'a, 'g> MB<'t, 'a, 'g> {
         let aw = self.o.top_await;
         //            0 econst 1 elet 2 efn 3 eclass 4 edefault 5 elist 6 edestr 7 order 8 order-try 9 order-callee
         //            10 deferred 11 cancel 12 exported-ask 13 use-imports 14 throw-top 15 throw-callee 16 caught 17 error-response-uncaught 18 call mutator
-        let w: [u32; 23] = [
+        let w: [u32; 24] = [
             if m { 6 } else { 0 },
             if m { 5 } else { 0 },
             if m { 4 } else { 0 },
@@ -320,6 +368,7 @@ impl<'t, 'a, 'g> MB<'t, 'a, 'g> {
             if self.o.local_async { 3 } else { 0 },
             if self.o.local_async { 3 } else { 0 },
             if aw { 3 } else { 0 },
+            if self.lazy_lib && !self.exports.is_empty() { 8 } else { 0 },
         ];
         match self.g.tape.weighted(&w) {
             0 => {
@@ -680,6 +729,7 @@ impl<'t, 'a, 'g> MB<'t, 'a, 'g> {
                     self.lines.push(t);
                 }
             }
+            23 => self.emit_lazy_lib(),
             _ => {
                 self.tag("use:call-exported-mutator");
                 let i = self.g.tape.below(self.mutators.len());
@@ -716,6 +766,10 @@ impl<'t, 'a, 'g> MB<'t, 'a, 'g> {
             self.lines.push("export const ecz = [1, \"z\"];".into());
             self.exports.push(ExportInfo { name: "ecz".into(), kind: ExKind::Const });
         }
+        if self.lazy_lib {
+            // at the latest here: at least one export statement precedes it
+            self.emit_lazy_lib();
+        }
         let d = self.g.deferred.pop().unwrap_or_default();
         for l in d {
             self.lines.push(render_plain(&l));
@@ -733,7 +787,7 @@ impl<'t, 'a, 'g> MB<'t, 'a, 'g> {
         }
         head.extend(self.imports.clone());
         let src = format!("{}\n{}{}\n", head.join("\n"), SHOW_PRELUDE, ind_lines(&self.lines.join("\n")));
-        let has_imports = !self.dep_specs.is_empty() || self.imports.iter().any(|i| i.contains("int:lib"));
+        let has_imports = !self.dep_specs.is_empty() || self.uses_int_lib;
         Built { src, modules: self.modules, kinds: self.kinds, tags: self.g.tags.clone(), exports: self.exports, excluded: self.g.excluded.clone(), has_imports, uses_orders: self.uses_orders }
     }
 }
@@ -760,6 +814,8 @@ fn builder<'t, 'a, 'g>(tape: &'t mut Tape<'a>, gates: &'g Gates, o: Opts) -> MB<
         dep_specs: vec![],
         uses_orders: false,
         uses_cancel: false,
+        lazy_lib: false,
+        uses_int_lib: false,
         ended: false,
         ask_fns: vec![],
         mutators: vec![],
@@ -793,13 +849,14 @@ fn gen_entry(tape: &mut Tape, gates: &Gates, max: usize) -> Value {
     let with_lib = o.internal_lib;
     let reads: Vec<u32> = (0..10).map(|_| tape.raw()).collect();
     let b = builder(tape, gates, o).build();
+    let expected: BTreeSet<String> = b.exports.iter().map(|e| e.name.clone()).collect();
     let mut tags: Vec<String> = b.tags.into_iter().collect();
     tags.push(if module { "case:entry-module".into() } else { "case:entry-script".into() });
     let mut internals = BTreeMap::new();
     if with_lib {
         internals.insert("int:lib".to_string(), INT_LIB.to_string());
     }
-    json!({"kind": "entry", "path": if module { json!("/main.ts") } else { Value::Null }, "src": b.src, "modules": b.modules, "internals": internals, "kinds": b.kinds, "reads": reads, "tags": tags, "excluded": b.excluded})
+    json!({"kind": "entry", "path": if module { json!("/main.ts") } else { Value::Null }, "src": b.src, "modules": b.modules, "internals": internals, "kinds": b.kinds, "reads": reads, "tags": tags, "excluded": b.excluded, "expected_exports": expected})
 }
 
 fn gen_role(tape: &mut Tape, gates: &Gates, max: usize) -> Value {
@@ -867,11 +924,12 @@ fn gen_role(tape: &mut Tape, gates: &Gates, max: usize) -> Value {
     }
     imp.push_str("const __after = __snap();\nconst __bafter = __bind();\n");
     imp.push_str("({names: __names, types: __types, before: __before, bindings_before: __bbefore, calls: __calls, after: __after, bindings_after: __bafter})\n");
+    let expected: BTreeSet<String> = b.exports.iter().map(|e| e.name.clone()).collect();
     let mut tags: Vec<String> = b.tags.into_iter().collect();
     tags.push(if three { "case:role-three".into() } else { "case:role-two".into() });
     let roles: Vec<&str> = if three { vec!["main", "provided", "internal"] } else { vec!["main", "provided"] };
     let mut internals = BTreeMap::new();
     internals.insert("int:lib".to_string(), INT_LIB.to_string());
     json!({"kind": "role", "m": b.src, "importer": imp, "modules": b.modules, "internals": internals, "kinds": b.kinds, "roles": roles, "tags": tags,
-           "m_has_imports": b.has_imports || b.uses_orders, "excluded": b.excluded})
+           "m_has_imports": b.has_imports || b.uses_orders, "excluded": b.excluded, "expected_exports": expected})
 }
